@@ -64,6 +64,9 @@ func oracle(c, res string) string {
 	if f[0] == "cli" {
 		return oracleCLI(c, res)
 	}
+	if f[0] == "longload" {
+		return oracleLong(c, res)
+	}
 	if f[0] == "cbuild" {
 		return c04c16.CheckConcurrent(c, res, func(p addchain.Program, s *ast.Chain) string {
 			chain, ops, _, err := c04c16.Interpret(s)
@@ -231,12 +234,16 @@ func main() {
 		ID:     "C04",
 		Gen: func(tier string, r *lib.Rand, emit func(string)) {
 			genCLI(tier, r, emit)
+			genLong(tier, r, emit)
 			c04c16.Gen([]string{"decompile", "build", "expand", "retranslate", "dangling"}, []string{"rebuild"}, 6)(tier, r, emit)
 		},
 		Neighbours: c04c16.Neighbours,
 		Run: func(c string) string {
 			if strings.HasPrefix(c, "cli ") {
 				return runCLI(c)
+			}
+			if strings.HasPrefix(c, "longload ") {
+				return runLong(c)
 			}
 			return c04c16.Run(c)
 		},
